@@ -169,11 +169,24 @@ func reload(st *trie.SlimTrie, spec *EncSpec) (*trie.SlimTrie, []byte, error) {
 			return
 		}
 		if prev := reloadPrev[spec.Name]; used && prev != nil {
+			if theCtx != nil {
+				short := func(b []byte) string {
+					if len(b) > 3000 {
+						return fmt.Sprintf("%s..(%d bytes)", hx(b[:64]), len(b))
+					}
+					return hx(b)
+				}
+				theCtx.InFlight(map[string]string{"what": "the process died (or hung until killed) while one instance loaded two streams in a row: st.Unmarshal(first); reads; st.Unmarshal(second)",
+					"encoder": spec.Name, "first_stream": short(prev), "second_stream": short(buf)})
+			}
 			if st2.Unmarshal(prev) == nil {
 				touchAll(st2)
 			}
 		}
 		err = st2.Unmarshal(buf)
+		if theCtx != nil {
+			theCtx.Landed()
+		}
 	}()
 	select {
 	case <-done:
